@@ -1,11 +1,51 @@
 (** C32: the model is coq/Lib/WireDns.v (shared with C33); this file adds the well-formedness
-    predicates the round-trip theorems are stated under.  No proofs here. *)
+    predicates the round-trip theorems are stated under.  No proofs here.
+
+    Range conditions that the encoder itself enforces (struct.error / ValueError) are NOT repeated
+    here: the theorems assume that encoding succeeded. *)
 From Coq Require Import List NArith ZArith Bool.
 From TwLib Require Export PyInt WireIter WireDns.
 Import ListNotations.
 Open Scope N_scope.
 
-(** a label of 1 to 63 bytes *)
-Definition wf_label (l : label) : Prop := 1 <= blen l <= 63.
+(** labels are non-empty (a Name is a dotted byte string: an empty label would end it) *)
+Definition name_ok (ls : list label) : Prop := Forall (fun l => 1 <= blen l) ls.
+
 (** a name the wire format can carry: 1..63-byte labels, at most 255 bytes in all (RFC 1035 2.3.4) *)
-Definition wf_name (ls : list label) : Prop := Forall wf_label ls /\ wire_len ls <= 255.
+Definition wf_name (ls : list label) : Prop := Forall (fun l => 1 <= blen l <= 63) ls /\ wire_len ls <= 255.
+
+Definition wf_field (t : fty) (v : fval) : Prop :=
+  match t, v with
+  | FU _, VU _ => True
+  | FU48, VU n => n < 281474976710656                       (* pack("!Q")[2:] drops the top 16 bits *)
+  | FS32, VS _ => True
+  | FName _, VName ls => name_ok ls
+  | FBytes k, VBytes b => blen b = N.of_nat k               (* inet_aton / inet_pton results *)
+  | FCharstr, VBytes _ => True
+  | FRest _, VBytes _ => True
+  | FCharstrs, VList _ => True
+  | FLen16, VBytes _ => True
+  | FA6, VA6 plen suffix prefix =>
+      plen <= 128 /\ blen suffix = 16 /\ name_ok prefix /\ (plen = 0 -> prefix = []) /\
+      (* only the low (128 - plen) / 8 bytes of the suffix are carried; the rest must be zero *)
+      takeN (16 - Z.to_N (a6_bytes plen)) suffix = repeat 0 (N.to_nat (16 - Z.to_N (a6_bytes plen)))
+  | _, _ => False
+  end.
+
+Fixpoint wf_fields (ts : list fty) (vs : list fval) : Prop :=
+  match ts, vs with
+  | [], [] => True
+  | t :: tr, v :: vr => wf_field t v /\ wf_fields tr vr
+  | _, _ => False
+  end.
+
+Definition wf_query (q : query) : Prop := name_ok (q_name q).
+Definition wf_rr (r : rr) : Prop := name_ok (r_name r) /\ wf_fields (schema_of (r_type r)) (r_data r).
+
+Definition wf_header (h : header) : Prop :=
+  h_answer h <= 1 /\ h_opCode h <= 15 /\ h_auth h <= 1 /\ h_trunc h <= 1 /\ h_recDes h <= 1 /\
+  h_recAv h <= 1 /\ h_authenticData h <= 1 /\ h_checkingDisabled h <= 1 /\ h_rCode h <= 15.
+
+Definition wf_message (m : message) : Prop :=
+  wf_header (m_hdr m) /\ Forall wf_query (m_queries m) /\ Forall wf_rr (m_answers m)
+  /\ Forall wf_rr (m_authority m) /\ Forall wf_rr (m_additional m).
